@@ -41,7 +41,7 @@ ESCAPED_PRINTABLES = [TRANSFORMATIONS.get(x, x)
 
 DOT_REPLACEMENT = "(" + "|".join(ESCAPED_PRINTABLES) + ")"
 
-TO_ESCAPE_IN_BRACKETS = "(+*)?"
+TO_ESCAPE_IN_BRACKETS = "(+*)?.$"
 
 SHORTCUTS = {
     " ": "\\ ",  # We have to do this due to how Regex separate words
@@ -258,7 +258,12 @@ class PythonRegex(regex.Regex):
         if not bracket_content or bracket_content[0] != "^":
             return bracket_content
         # We inverse everything
-        return [x for x in ESCAPED_PRINTABLES if x not in bracket_content]
+        excluded = set(bracket_content)
+        for symbol in bracket_content:
+            if len(symbol) == 2 and symbol[0] == "\\":
+                # An escaped character excludes the character itself
+                excluded.add(TRANSFORMATIONS.get(symbol[1], symbol[1]))
+        return [x for x in ESCAPED_PRINTABLES if x not in excluded]
 
     @staticmethod
     def _insert_or(l_to_modify):
